@@ -129,7 +129,7 @@ def compileLoop (fuel : Nat) (reg : Registry) (opt : Bool) (all : List Char) :
   | r :: rest, i, st =>
     if r = '\\' then
       match rest with
-      | [] => .error "index out of range (trailing backslash)"
+      | [] => .ok { st with sb := st.sb ++ [r] }   -- `i+1 < len(runes)` fails: a trailing backslash is a literal
       | e :: rest' => compileLoop fuel reg opt all rest' (i + 2) { st with sb := st.sb ++ [unescape e] }
     else if r = '{' then
       if st.inStatement = 0 then
